@@ -357,7 +357,7 @@ def item_module(idx, cid, it, vals, zeroize, hostile=False):
     return '\n'.join(L)
 
 
-def build_and_run(cfg, modules, repo, scratch_root, keep_src=None, hostile=False):
+def build_and_run(cfg, modules, repo, scratch_root, keep_src=None, hostile=False, miri=False):
     """returns (ok, stdout, compile_errors_json_lines)"""
     feats = CFGS[cfg]['features']
     scratch = tempfile.mkdtemp(prefix='dwprobe-', dir=scratch_root)
@@ -380,9 +380,14 @@ def build_and_run(cfg, modules, repo, scratch_root, keep_src=None, hostile=False
         if cfg == 'nightly':
             cmd.append('+nightly')
         cmd += ['build', '--offline', '-q', '--message-format=short']
-        p = subprocess.run(cmd, cwd=scratch, env=env, stdout=subprocess.PIPE, stderr=subprocess.STDOUT, text=True, timeout=3000)
-        if p.returncode != 0:
-            return False, '', p.stdout
+        if miri:
+            # the interpreter checks every executed operation: a wrong-width tag read or a reached unreachable_unchecked is reported as UB
+            cmd = ['cargo', '+nightly', 'miri', 'run', '--offline', '-q', '--']
+            env['MIRIFLAGS'] = '-Zmiri-disable-isolation'
+        else:
+            p = subprocess.run(cmd, cwd=scratch, env=env, stdout=subprocess.PIPE, stderr=subprocess.STDOUT, text=True, timeout=3000)
+            if p.returncode != 0:
+                return False, '', p.stdout
         # a reached unreachable_unchecked aborts the process (debug-assertion UB check): note the item, skip it, go on
         out, errs, skip = '', '', []
         ids = {}
@@ -390,7 +395,12 @@ def build_and_run(cfg, modules, repo, scratch_root, keep_src=None, hostile=False
             mm = re.search(r'println!\("OBS ([^"]*)"\);', m)
             ids[mm.group(1)] = i
         for attempt in range(40):
-            r = subprocess.run([os.path.join(scratch, 'target', 'debug', 'probe')] + [str(x) for x in skip], stdout=subprocess.PIPE, stderr=subprocess.PIPE, text=True, timeout=600)
+            if miri:
+                r = subprocess.run(cmd + [str(x) for x in skip], cwd=scratch, env=env, stdout=subprocess.PIPE, stderr=subprocess.PIPE, text=True, timeout=3000)
+                if attempt == 0 and 'OBS ' not in r.stdout and r.returncode != 0 and 'Undefined Behavior' not in r.stderr:
+                    return False, '', r.stderr
+            else:
+                r = subprocess.run([os.path.join(scratch, 'target', 'debug', 'probe')] + [str(x) for x in skip], stdout=subprocess.PIPE, stderr=subprocess.PIPE, text=True, timeout=600)
             if 'DONE' in r.stdout:
                 # keep the blocks of earlier (aborted) attempts for the aborted items only
                 out = r.stdout + out
@@ -403,7 +413,7 @@ def build_and_run(cfg, modules, repo, scratch_root, keep_src=None, hostile=False
             cid = last[-1][4:]
             skip.append(ids[cid])
             blk = r.stdout[r.stdout.rfind('OBS ' + cid):].split('\n')[1:]
-            out += 'ABORTED ' + cid + '\n' + r.stderr[-600:].replace('\n', ' | ') + '\n' + 'PARTIAL ' + ' '.join(l.split(' ')[0] for l in blk if l) + '\n'
+            out += 'ABORTED ' + cid + '\n' + (r.stderr[r.stderr.find('Undefined Behavior') - 10:][:600] if 'Undefined Behavior' in r.stderr else r.stderr[-600:]).replace('\n', ' | ') + '\n' + 'PARTIAL ' + ' '.join(l.split(' ')[0] for l in blk if l) + '\n'
         return True, out, errs
     finally:
         shutil.rmtree(scratch, ignore_errors=True)
